@@ -1,22 +1,33 @@
 #!/bin/bash
-# tools/sweep_seeds.sh: for every seeded change, apply it to /repo, run every registered check
-# (in parallel, evidence written to a scratch dir), record which checks fire, undo. Writes seeded/RESULTS.md.
+# tools/sweep_seeds.sh: for every seeded change, apply it to a scratch copy of /repo's tracked
+# files (outside /repo and /verif, removed afterwards) and run checks against that copy; record
+# which checks fire in seeded/RESULTS.md.  By default only the seed's own property is checked;
+# FULL=1 runs every registered check against every seed (the cross matrix).
 cd /verif; . ./env.sh
-# by default only the seed's own property is checked; FULL=1 runs every registered check (slow)
 allprops=$(python3 -c "import json;print(' '.join(c['property_id'] for c in json.load(open('MANIFEST.json'))['checks']))")
-ev=/tmp/sweep_ev.$$; mkdir -p $ev; cp known_findings.json $ev/
+work=/tmp/sweep.$$; mkdir -p $work/ev; cp known_findings.json $work/ev/
+jobs=$work/jobs; : > $jobs
+for d in seeded/C*/; do
+  id=$(basename $d); prop=${id%-*}
+  mkdir -p $work/$id
+  git -C /repo ls-files -z | (cd /repo && xargs -0 cp --parents -t $work/$id)
+  (cd $work/$id && git apply "/verif/$d/patch.diff") || { echo "$id APPLY-FAILED" >> $work/failed; continue; }
+  props=$prop; [ -n "$FULL" ] && props=$allprops
+  for p in $props; do echo "$id $p" >> $jobs; done
+done
+run_one() { id=$1; p=$2; work=$3; mkdir -p $work/ev/$id; cp $work/ev/known_findings.json $work/ev/$id/; /verif/bin/rsa check --property $p --repo $work/$id --verif $work/ev/$id > $work/ev/$id/$p.out 2>&1; echo $? > $work/ev/$id/$p.rc; }
+export -f run_one
+cat $jobs | xargs -P ${PAR:-10} -L 1 bash -c 'run_one $0 $1 '$work
 out=seeded/RESULTS.md
-echo "| seed | property | fired checks (exit 1) | rules reported by the property's own check |" > $out
+echo "| seed | property | checks that fire (exit 1) | rules reported by the property's own check |" > $out
 echo "|---|---|---|---|" >> $out
 for d in seeded/C*/; do
   id=$(basename $d); prop=${id%-*}
-  git -C /repo apply "$(pwd)/$d/patch.diff" || { echo "| $id | $prop | APPLY FAILED | |" >> $out; continue; }
-  props=$prop; [ -n "$FULL" ] && props=$allprops
-  for p in $props; do ( bin/rsa check --property $p --repo /repo --verif $ev > $ev/$p.out 2>&1; echo $? > $ev/$p.rc ) & done; wait
-  fired=""; for p in $props; do rc=$(cat $ev/$p.rc); [ "$rc" = "1" ] && fired="$fired $p"; [ "$rc" = "2" ] && fired="$fired $p(incomplete)"; done
-  rules=$(grep -E "^  [A-Z][A-Z0-9-]+ / " $ev/$prop.out | sed -E 's/^  ([A-Z0-9-]+) \/ .*/\1/' | sort -u | tr '\n' ' ')
+  fired=""
+  for rcf in $work/ev/$id/*.rc; do [ -f "$rcf" ] || continue; p=$(basename $rcf .rc); rc=$(cat $rcf); [ "$rc" = "1" ] && fired="$fired $p"; [ "$rc" != "0" ] && [ "$rc" != "1" ] && fired="$fired $p(rc=$rc)"; done
+  rules=$(grep -E "^  [A-Z][A-Z0-9-]+ / " $work/ev/$id/$prop.out 2>/dev/null | sed -E 's/^  ([A-Z0-9-]+) \/ .*/\1/' | sort -u | tr '\n' ' ')
   echo "| $id | $prop |$fired | $rules |" >> $out
-  git -C /repo checkout -- .
 done
-rm -rf $ev
+[ -f $work/failed ] && cat $work/failed
+rm -rf $work
 cat $out
